@@ -202,6 +202,7 @@ def run(ck: Check):
     protocols.dense_protocol(ck, "raw", "")
     protocols.conv_protocol(ck, "raw", "")
     protocols.large_batch_rows(ck, train=False)
+    protocols.dtype_variants(ck, train=False)
     return ck.finish()
 
 
